@@ -59,6 +59,10 @@ TEMPLATES.append(fn("beschr_sonst", [("x", G("B"), False)], TT, [RET(lit(T("irge
 TEMPLATES.append(fn("zweimal", [("w", GT, False)], TT, [var("e1", TT, call("beschreibung", [("x", ident("w"))]), False), var("e2", TT, call("beschreibung", [("x", ident("w"))]), False),
                                                       RET(bin_("cat", ident("e1"), bin_("cat", lit(T(" / ")), ident("e2"))))]))
 TEMPLATES.append(fn("zweimal_aussen", [("w", GT, False)], TT, [var("a1", TT, call("zweimal", [("w", ident("w"))]), False), RET(bin_("cat", ident("a1"), bin_("cat", lit(T(" | ")), call("beschreibung", [("x", ident("w"))]))))]))
+# a generic function whose body instantiates ITSELF with another type (Text) before anything else: two entries of one list are open at once
+_inner = call("selbst_anders", [("x", lit(T("innen"))), ("tiefe", bin_("minus", ident("tiefe"), zl(1)))])
+_inner["inst"] = {"T": TT}
+TEMPLATES.append(fn("selbst_anders", [("x", GT, False), ("tiefe", TZ, False)], TZ, [if_(bin_("gt", ident("tiefe"), zl(0)), [RET(bin_("plus", zl(1), _inner))]), RET(zl(0))]))
 DISPATCH = {"beschreibung": lambda b: "beschr_laenge" if (b["T"] == TT or "l" in b["T"]) else "beschr_sonst"}
 DISPATCH_ALL = {"beschreibung": ["beschr_laenge", "beschr_sonst"]}
 for _n in ("beschreibung", "beschr_laenge", "beschr_sonst"):
@@ -103,6 +107,7 @@ def cases(tier, rng):
         su = [var("ga", t, a, False), var("gb", t, v2, False), {"k": "expr", "e": gcall("tausche", b, [("a", lvid("ga")), ("b", lvid("gb"))])}]
         cs.append(Case("gen:tausche:%s" % enc, semgen.pair2(ident("ga"), t, ident("gb"), t)[0], semgen.pair2(ident("ga"), t, ident("gb"), t)[1], su))
         cs.append(Case("gen:zweimal:%s" % enc, gcall("zweimal", b, [("w", a)]), TT))
+        cs.append(Case("gen:selbst_anders:%s" % enc, gcall("selbst_anders", b, [("x", a), ("tiefe", zl(2))]), TZ))
         cs.append(Case("gen:zweimal_aussen:%s" % enc, gcall("zweimal_aussen", b, [("w", v2)]), TT))
         if enc in ("Z", "K"):
             cs.append(Case("gen:halbiere:%s" % enc, gcall("halbiere", b, [("x", zl(7) if enc == "Z" else lit(K(7, 1)))]), TK))
@@ -193,7 +198,8 @@ def specialise(P):
     S = dict(P)
     S["main"] = rename(P["main"])
     order = {t["n"]: i for i, t in enumerate(TEMPLATES)}
-    funcs.sort(key=lambda f: (order[f["n"].split("__")[0]], f["n"]))
+    # (the Text specialisation first: selbst_anders__<X> calls selbst_anders__T)
+    funcs.sort(key=lambda f: (order[f["n"].split("__")[0]], 0 if f["n"].endswith("__T") else 1, f["n"]))
     S["funcs"] = list(P["funcs"]) + [rename(f) for f in funcs]
     return S
 
